@@ -728,3 +728,22 @@ Proof.
   - constructor; [exact V | constructor].
   - left. unfold len, HeadLength. cbn [length]. lia.
 Qed.
+
+(* what the summary op OBigFrame relies on: whenever the encoder accepts (t, n), the framed
+   packet is handed up intact by both transports, for EVERY body of n bytes *)
+Lemma big_frame t n h body : pkt_header t n = Ok h -> len body = n ->
+  ws_frames [h ++ body] = ([h ++ body], None) /\ read_frames (h ++ body) = ([h ++ body], FClosed).
+Proof.
+  intros Hh Hl. unfold pkt_header in Hh.
+  destruct (pkt_type_ok t) eqn:Ty; cbn [negb] in Hh; [|discriminate].
+  destruct (Z.geb_spec n MaxPacketSize) as [G|G]; [discriminate|].
+  injection Hh as <-. fold (hdr t n).
+  assert (V : valid_pkt (t, body)) by (split; cbn [fst snd]; [exact Ty | lia]).
+  assert (E : hdr t n ++ body = enc_bytes (t, body)) by (unfold enc_bytes; cbn [fst snd]; rewrite Hl; reflexivity).
+  rewrite E. split.
+  - apply (ws_frames_stream [(t, body)]). constructor; [exact V | constructor].
+  - pose proof (read_frames_stream [(t, body)] []) as R. cbn [stream map concat] in R.
+    rewrite !app_nil_r in R. apply R.
+    + constructor; [exact V | constructor].
+    + left. unfold len, HeadLength. cbn [length]. lia.
+Qed.
